@@ -235,6 +235,10 @@ def is_identity_columns(t):
         r = strip_views(call_arg(t, 1, 'reps'))
         along_second = (r.op in ('tuple', 'list') and len(r.args[0]) == 2 and const_val(r.args[0][0]) == 1)
         return is_identity_columns(call_arg(t, 0)) and along_second
+    if is_call_to(t, 'numpy.broadcast_to'):
+        # np.broadcast_to(arange(K)[:, None], (K, F)): the column repeated along the second axis
+        shp = strip_views(call_arg(t, 1, 'shape'))
+        return is_identity_columns(call_arg(t, 0)) and shp.op in ('tuple', 'list') and len(shp.args[0]) == 2
     if t.op == 'sub':
         ins = newaxis_insertions(t)
         if ins is not None and ins[1] in ([1], [-1]):
@@ -263,6 +267,16 @@ def check_apply_mapping(run, A):
             d = shape_dim(call_arg(cols, 0))
             # all frequencies: the length of the second (= last) axis of the (K, F) mapping
             ok = d is not None and d[0].op == 'param' and d[0].args[0] == 'mapping' and d[1] in (1, -1)
+    if not ok and len(rets) == 1 and is_call_to(rets[0], 'numpy.take_along_axis'):
+        # np.take_along_axis(mask, mapping[..., None ...], axis=0): out[k, f, ...] = mask[mapping[k, f], f, ...] - the same gather along the class axis
+        r0 = rets[0]
+        src, ind, ax = strip_views(call_arg(r0, 0, 'arr')), strip_views(call_arg(r0, 1, 'indices')), const_val(call_arg(r0, 2, 'axis'))
+        base_ = ind
+        if is_call_to(ind, 'numpy.expand_dims'):
+            base_ = strip_views(call_arg(ind, 0))
+        elif newaxis_insertions(ind) is not None:
+            base_ = strip_views(newaxis_insertions(ind)[0])
+        ok = src.op == 'param' and src.args[0] == 'mask' and ax == 0 and base_.op == 'param' and base_.args[0] == 'mapping' and base_ is not ind
     run.check(ok, 'R-PERM', 'apply_mapping: pure gather mask[mapping, range(F)]', fn.loc(), '', 'apply_mapping is not the advanced-indexing gather of the mask rows by the mapping per frequency',
               construct=f'R-PERM::{q}::gather')
     n_eff = [e for e in g.events if e.kind in ('inplace', 'store')]
